@@ -320,3 +320,400 @@ Proof.
     apply H; [|reflexivity]. pose proof (idl_depth_le_len t Hs). lia.
   - now apply isig_of.
 Qed.
+
+(* ================= Layer 2: action lines ================= *)
+(* ---------- decimal numbers ---------- *)
+Local Open Scope N_scope.
+
+Lemma N_digits_acc f : forall n acc, N_digits f n acc = (N_digits f n "" ++ acc)%string.
+Proof.
+  induction f as [|f IH]; intros n acc; [reflexivity|]. cbn [N_digits].
+  destruct (n <? 10); [reflexivity|].
+  rewrite (IH (n / 10) (String _ acc)), (IH (n / 10) (String _ "")). now rewrite sapp_assoc.
+Qed.
+
+Lemma dec_value_app a b acc : dec_value (a ++ b) acc = dec_value b (dec_value a acc).
+Proof. revert acc; induction a as [|c a IH]; intro acc; cbn; [reflexivity|apply IH]. Qed.
+
+Lemma digit_char d : d < 10 -> N_of_ascii (ascii_of_N (48 + d)) = 48 + d /\ is_digit (ascii_of_N (48 + d)) = true.
+Proof.
+  intro H. assert (E : N_of_ascii (ascii_of_N (48 + d)) = 48 + d) by (apply N_ascii_embedding; lia).
+  split; [exact E|]. unfold is_digit. rewrite E. apply andb_true_intro. split; apply N.leb_le; lia.
+Qed.
+
+Lemma N_digits_spec f : forall n, n < 2 ^ N.of_nat f -> (0 < f)%nat ->
+  dec_value (N_digits f n "") 0 = n /\ all_chars is_digit (N_digits f n "") = true /\ N_digits f n "" <> ""%string.
+Proof.
+  induction f as [|f IH]; intros n Hn Hf; [lia|]. cbn [N_digits].
+  assert (Hd : n mod 10 < 10) by (apply N.mod_lt; lia).
+  destruct (digit_char (n mod 10) Hd) as [Hc1 Hc2].
+  destruct (n <? 10) eqn:E.
+  - apply N.ltb_lt in E.
+    repeat split; [|cbn [all_chars]; now rewrite Hc2|discriminate].
+    cbn [dec_value]. rewrite Hc1. rewrite N.mod_small by lia. lia.
+  - apply N.ltb_ge in E. rewrite N_digits_acc.
+    assert (Hq : n / 10 < 2 ^ N.of_nat f).
+    { replace (N.of_nat (S f)) with (1 + N.of_nat f) in Hn by lia. rewrite N.pow_add_r in Hn. change (2 ^ 1) with 2 in Hn.
+      apply N.div_lt_upper_bound; lia. }
+    assert (Hf' : (0 < f)%nat).
+    { destruct f; [|lia]. cbn in Hq. assert (n / 10 = 0) by lia. apply N.div_small_iff in H; lia. }
+    destruct (IH (n / 10) Hq Hf') as (H1 & H2 & H3).
+    repeat split.
+    + rewrite dec_value_app, H1. cbn [dec_value]. rewrite Hc1. pose proof (N.div_mod n 10 ltac:(lia)) as Hdm. clear -Hdm. set (q := n / 10) in *. set (r := n mod 10) in *. clearbody q r. lia.
+    + clear -H2 Hc2. induction (N_digits f (n / 10) "") as [|c s IHs]; cbn [append all_chars] in *; [now rewrite Hc2|].
+      apply andb_prop in H2 as [Ha Hb]. now rewrite Ha, IHs.
+    + destruct (N_digits f (n / 10) ""); discriminate.
+Qed.
+
+Lemma N_to_string_spec n :
+  dec_value (N_to_string n) 0 = n /\ all_chars is_digit (N_to_string n) = true /\ N_to_string n <> ""%string.
+Proof.
+  unfold N_to_string. apply N_digits_spec; [|lia].
+  pose proof (N.size_gt n) as H. eapply N.lt_le_trans; [exact H|].
+  apply N.pow_le_mono_r; lia.
+Qed.
+
+Lemma not_digit_not_space c : is_digit c = true -> is_scan_space c = false.
+Proof. destruct c as [[] [] [] [] [] [] [] []]; vm_compute; congruence. Qed.
+
+(* fmt.Sscanf(comment, "uid:%d") on what GenerateIDL writes *)
+Lemma scan_uid_print n : n < 2 ^ 32 -> scan_uid ("uid:" ++ N_to_string n) = Some n.
+Proof.
+  intro Hn. destruct (N_to_string_spec n) as (Hv & Hd & Hne).
+  unfold scan_uid. change (strip_prefix "uid:" ("uid:" ++ N_to_string n)) with (Some (N_to_string n)).
+  destruct (N_to_string n) as [|c r] eqn:E; [congruence|].
+  cbn in Hd. apply andb_prop in Hd as [Hc Hr].
+  cbn [span]. rewrite (not_digit_not_space c Hc).
+  cbn [span]. rewrite Hc. rewrite span_app_nil by (now rewrite all_chars_same). 
+  rewrite Hv. apply N.ltb_lt in Hn. now rewrite Hn.
+Qed.
+
+(* ---------- leading white space ---------- *)
+Local Open Scope nat_scope.
+Local Open Scope string_scope.
+
+Lemma and_loop_ext (p : iparser) ps s1 s2 : p s1 = p s2 -> and_loop (p :: ps) s1 = and_loop (p :: ps) s2.
+Proof. intro H. cbn [and_loop]. now rewrite H. Qed.
+Lemma pand_ext cb (p : iparser) ps s1 s2 : p s1 = p s2 -> pand cb (p :: ps) s1 = pand cb (p :: ps) s2.
+Proof. intro H. unfold pand. now rewrite (and_loop_ext p ps s1 s2 H). Qed.
+Lemma por_ext cb (ps : list iparser) s1 s2 : Forall (fun p => p s1 = p s2) ps -> por cb ps s1 = por cb ps s2.
+Proof. induction 1 as [|p ps Hp HF IH]; [reflexivity|]. cbn [por]. now rewrite Hp, IH. Qed.
+
+Lemma itype_ws f s : itype f (String " " s) = itype f s.
+Proof.
+  destruct f as [|f]; [reflexivity|]. rewrite !itype_S. apply por_ext. repeat constructor.
+Qed.
+
+(* ---------- names ---------- *)
+Lemma alpha__not_ws c : is_alpha_ c = true -> @is_ws c = false.
+Proof. destruct c as [[] [] [] [] [] [] [] []]; vm_compute; congruence. Qed.
+
+Lemma iident_ok f rest : is_iident f = true ->
+  match rest with EmptyString => True | String c _ => is_alnum_ c = false end ->
+  fst (iident (f ++ rest)) = Ok (NTerm f) rest.
+Proof.
+  intros Hf Hr. destruct f as [|c r]; [discriminate|]. cbn in Hf. apply andb_prop in Hf as [Hc Ha].
+  unfold iident, token1. cbn [append skip_ws]. rewrite (alpha__not_ws c Hc), Hc.
+  rewrite span_app_follow by assumption. reflexivity.
+Qed.
+
+Lemma iident_ws s : iident (String " " s) = iident s.
+Proof. reflexivity. Qed.
+
+(* ---------- parameters ---------- *)
+Definition pnode (p : string * ty) : inode := NVal (VParam (fst p) (ity_of (snd p))).
+
+Lemma params_of_nodes_map l : params_of_nodes (map pnode l) = Some (map (fun p => (fst p, ity_of (snd p))) l).
+Proof. induction l as [|p l IH]; cbn; [reflexivity|now rewrite IH]. Qed.
+
+Definition param_ok (f : nat) (p : string * ty) : Prop :=
+  is_iident (fst p) = true /\ idl_safe (snd p) = true /\ idl_depth (snd p) < f.
+
+Lemma iparameter_ok f p rest : param_ok f p -> follow_idl rest = true ->
+  fst (iparameter (itype f) (param_str p ++ rest)) = Ok (pnode p) rest.
+Proof.
+  intros (Hn & Hs & Hd) Hfo. destruct p as [n t]. unfold param_str, iparameter. cbn [fst snd] in *.
+  rewrite !sapp_assoc. cbn [append]. rewrite pand_fst.
+  and_step ltac:(now apply iident_ok).
+  and_step ltac:(reflexivity).
+  and_step ltac:(rewrite itype_ws; apply itype_name; assumption).
+  reflexivity.
+Qed.
+
+(* the separator GenerateIDL writes: "," between named parameters, ", " from ParamIDL *)
+Definition is_sep (sep : string) : Prop := sep = "," \/ sep = ", ".
+
+Lemma iparameter_ws f s : iparameter (itype f) (String " " s) = iparameter (itype f) s.
+Proof. unfold iparameter. apply pand_ext. reflexivity. Qed.
+
+Lemma iparameter_ok_pre f p pre rest : (pre = "" \/ pre = " ") -> param_ok f p -> follow_idl rest = true ->
+  fst (iparameter (itype f) (pre ++ param_str p ++ rest)) = Ok (pnode p) rest.
+Proof.
+  intros [-> | ->] Hp Hf; cbn [append]; [|rewrite iparameter_ws]; now apply iparameter_ok.
+Qed.
+
+Lemma params_loop f sep p l : is_sep sep -> forall pre rest n, (pre = "" \/ pre = " ") ->
+  Forall (param_ok f) (p :: l) -> List.length (p :: l) < n ->
+  fst (sep_loop n (iparameter (itype f)) (atom ",") (pre ++ join sep (map param_str (p :: l)) ++ String ")" rest)) =
+  Ok (map pnode (p :: l)) (String ")" rest).
+Proof.
+  intro Hsep. revert p. induction l as [|q l IH]; intros p pre rest n Hpre HF Hn; (destruct n; [cbn in Hn; lia|]);
+    inversion HF as [|? ? Hp HF']; subst.
+  - cbn [map join]. apply (sep_loop_last n _ _ _ (pnode p) (String ")" rest)); [now apply iparameter_ok_pre|reflexivity].
+  - cbn [map]. rewrite join_cons2, !sapp_assoc.
+    set (tl := join sep (param_str q :: map param_str l) ++ String ")" rest).
+    set (pre' := match sep with "," => "" | _ => " " end).
+    assert (Hpre' : pre' = "" \/ pre' = " ") by (subst pre'; destruct Hsep as [-> | ->]; auto).
+    assert (Esep : sep = "," ++ pre') by (subst pre'; destruct Hsep as [-> | ->]; reflexivity).
+    rewrite (sep_loop_more n _ (atom ",") (pre ++ param_str p ++ sep ++ tl) (pnode p) (sep ++ tl) (NTerm ",") (pre' ++ tl)).
+    + subst tl. specialize (IH q pre' rest n Hpre'). cbn [map] in IH. rewrite IH; [reflexivity|assumption|cbn in Hn |- *; lia].
+    + apply iparameter_ok_pre; [assumption|assumption|]. destruct Hsep as [-> | ->]; reflexivity.
+    + rewrite Esep. rewrite sapp_assoc. reflexivity.
+    + assert (Hls : String.length sep = S (String.length pre')) by (rewrite Esep; reflexivity).
+      clearbody tl pre'. repeat rewrite slen_app. lia.
+Qed.
+
+Lemma join_len_params sep l : List.length l <= S (String.length (join sep (map param_str l))).
+Proof.
+  induction l as [|p l IH]; [cbn; lia|]. destruct l as [|q l]; [cbn; lia|].
+  assert (2 <= String.length (param_str p)) by (unfold param_str; repeat rewrite slen_app; cbn; lia).
+  cbn [map]. rewrite join_cons2. repeat rewrite slen_app. cbn [map] in IH. cbn [List.length] in *. lia.
+Qed.
+
+Lemma iparameters_ok f sep l rest : is_sep sep -> Forall (param_ok f) l ->
+  fst (iparameters (itype f) (join sep (map param_str l) ++ String ")" rest)) =
+  Ok (NVal (VParams (map (fun p => (fst p, ity_of (snd p))) l))) (String ")" rest).
+Proof.
+  intros Hsep HF. unfold iparameters. rewrite pand_fst. destruct l as [|p l].
+  - cbn [map join append].
+    and_step ltac:(apply maybe_fail; rewrite many_sep_fst; rewrite sep_loop_none by reflexivity; reflexivity).
+    reflexivity.
+  - and_step ltac:(apply (maybe_ok (Some nodify_first) _ _ (NVal (VParams (map (fun p => (fst p, ity_of (snd p))) (p :: l)))));
+                   rewrite many_sep_fst, (params_loop f sep p l Hsep "" rest _ (or_introl eq_refl));
+                   [cbn [map]; unfold inodify_params; cbn [docb]; fold (map pnode l); 
+                    change (pnode p :: map pnode l) with (map pnode (p :: l)); rewrite params_of_nodes_map; reflexivity
+                   |assumption
+                   |cbn [append]; rewrite slen_app; pose proof (join_len_params sep (p :: l)); cbn [String.length List.length] in *; lia]).
+    reflexivity.
+Qed.
+
+(* ---------- the //uid comment ---------- *)
+Lemma digit_not_nl c : is_digit c = true -> not_nl c = true.
+Proof. destruct c as [[] [] [] [] [] [] [] []]; vm_compute; congruence. Qed.
+
+Lemma digits_not_nl s : all_chars is_digit s = true -> all_chars not_nl s = true.
+Proof.
+  induction s as [|c s IH]; cbn; [reflexivity|]. intro H. apply andb_prop in H as [Hc Hs].
+  now rewrite (digit_not_nl c Hc), IH.
+Qed.
+
+(* " //uid:<n>\n" (with or without the leading space) is read as the uid *)
+Lemma rest_of_line_uid uid rest : 
+  fst (rest_of_line ("uid:" ++ N_to_string uid ++ nl ++ rest)) = Ok (NTerm ("uid:" ++ N_to_string uid)) (nl ++ rest).
+Proof.
+  destruct (N_to_string_spec uid) as (_ & Hd & _).
+  unfold rest_of_line, nl. cbn [skip_ws append]. change (@is_ws "u") with false. cbn iota.
+  change (String "u" (String "i" (String "d" (String ":" (N_to_string uid ++ String "010" rest)))))
+    with (("uid:" ++ N_to_string uid) ++ String "010" rest).
+  rewrite span_app; [reflexivity| |reflexivity].
+  rewrite all_chars_same. cbn [append all_chars]. now rewrite (digits_not_nl _ Hd).
+Qed.
+
+Lemma comment_content_uid uid rest : (uid < 2 ^ 32)%N ->
+  fst (pand (Some inodify_comment_content) [atom "//"; rest_of_line] ("//uid:" ++ N_to_string uid ++ nl ++ rest)) =
+  Ok (NVal (VUid uid)) (nl ++ rest).
+Proof.
+  intro Hu. rewrite pand_fst.
+  rewrite (and_loop_cons_ok (atom "//") [rest_of_line] _ (NTerm "//") ("uid:" ++ N_to_string uid ++ nl ++ rest)) by reflexivity.
+  rewrite (and_loop_cons_ok rest_of_line [] _ _ _ (rest_of_line_uid uid rest)).
+  cbn [lift and_loop fst docb inodify_comment_content]. now rewrite (scan_uid_print uid Hu).
+Qed.
+
+Lemma icomments_uid uid pre rest : (uid < 2 ^ 32)%N -> (pre = "" \/ pre = " ") ->
+  fst (icomments (pre ++ "//uid:" ++ N_to_string uid ++ nl ++ rest)) = Ok (NVal (VUid uid)) (nl ++ rest).
+Proof.
+  intros Hu Hpre. unfold icomments. rewrite pand_fst.
+  and_step ltac:(apply (maybe_ok (Some nodify_first) _ _ (NVal (VUid uid)));
+                 destruct Hpre as [-> | ->]; [|cbn [append]; erewrite pand_ext by reflexivity];
+                 now apply comment_content_uid).
+  reflexivity.
+Qed.
+
+(* ---------- the return type ---------- *)
+Lemma print_v rt : print rt = "v" -> rt = TS SVoid.
+Proof.
+  destruct rt as [s|t|k v|ts|n fs]; cbn; try discriminate.
+  - destruct s; cbn; try discriminate. reflexivity.
+  - destruct fs; discriminate.
+Qed.
+
+Definition ret_ity (rt : ty) : ity := if String.eqb (print rt) "v" then IBasic SVoid else ity_of rt.
+Definition ret_ok (f : nat) (rt : ty) : Prop := rt = TS SVoid \/ (idl_safe rt = true /\ idl_depth rt < f).
+
+Lemma ireturns_ok f rt tail : ret_ok f rt ->
+  (exists x, tail = String "/" x) ->
+  fst (ireturns (itype f) (String " " (ret_str rt ++ tail))) = Ok (NVal (VType (ret_ity rt))) (String " " tail).
+Proof.
+  intros Hr (x & ->). unfold ireturns, ret_str, ret_ity. rewrite pand_fst.
+  destruct (String.eqb (print rt) "v") eqn:E.
+  - cbn [append].
+    and_step ltac:(apply maybe_fail; reflexivity). reflexivity.
+  - destruct Hr as [-> | [Hs Hd]]; [discriminate|].
+    rewrite !sapp_assoc. cbn [append].
+    and_step ltac:(apply (maybe_ok (Some nodify_first) _ _ (NVal (VType (ity_of rt))));
+                   rewrite pand_fst;
+                   rewrite (and_loop_cons_ok (atom "->") [itype f] _ (NTerm "->") (String " " (idl_name rt ++ String " " (String "/" x)))) by reflexivity;
+                   rewrite (and_loop_cons_ok (itype f) [] _ (NVal (VType (ity_of rt))) (String " " (String "/" x)))
+                     by (rewrite itype_ws; apply itype_name; [assumption|assumption|reflexivity]);
+                   reflexivity).
+    reflexivity.
+Qed.
+
+(* ---------- Layer 2: the three kinds of action lines ---------- *)
+Definition iparams (l : list (string * ty)) : list (string * ity) := map (fun p => (fst p, ity_of (snd p))) l.
+
+Theorem method_line_parses : forall f name sep l rt uid rest,
+  is_iident name = true -> (uid < 2 ^ 32)%N -> is_sep sep -> Forall (param_ok f) l -> ret_ok f rt ->
+  fst (imethod (itype f) (method_line name (join sep (map param_str l)) (ret_str rt) uid ++ rest)) =
+  Ok (NVal (VMethod name uid (ret_ity rt) (iparams l))) (nl ++ rest).
+Proof.
+  intros f name sep l rt uid rest Hname Hu Hsep Hl Hr.
+  unfold method_line, tab. repeat rewrite sapp_assoc. cbn [append].
+  unfold imethod. rewrite pand_fst.
+  and_step ltac:(reflexivity).
+  and_step ltac:(rewrite iident_ws; now apply iident_ok).
+  and_step ltac:(reflexivity).
+  and_step ltac:(now apply (iparameters_ok f sep l)).
+  and_step ltac:(reflexivity).
+  and_step ltac:(apply (ireturns_ok f rt); [assumption|eexists; reflexivity]).
+  and_step ltac:(apply (icomments_uid uid " " rest Hu); now right).
+  reflexivity.
+Qed.
+
+Theorem sigprop_line_parses : forall f kw name sep l uid rest,
+  is_iident name = true -> (uid < 2 ^ 32)%N -> is_sep sep -> Forall (param_ok f) l ->
+  (kw = "sig" /\ fst (isignal (itype f) (sigprop_line kw name (join sep (map param_str l)) uid ++ rest)) =
+                 Ok (NVal (VSignal name uid (iparams l))) (nl ++ rest)) \/
+  (kw = "prop" /\ fst (iproperty (itype f) (sigprop_line kw name (join sep (map param_str l)) uid ++ rest)) =
+                  Ok (NVal (VProp name uid (iparams l))) (nl ++ rest)) \/
+  (kw <> "sig" /\ kw <> "prop").
+Proof.
+  intros f kw name sep l uid rest Hname Hu Hsep Hl.
+  destruct (String.eqb_spec kw "sig") as [->|Hs]; [left; split; [reflexivity|]|right].
+  - unfold sigprop_line, tab. repeat rewrite sapp_assoc. cbn [append].
+    unfold isignal. rewrite pand_fst.
+    and_step ltac:(reflexivity).
+    and_step ltac:(rewrite iident_ws; now apply iident_ok).
+    and_step ltac:(reflexivity).
+    and_step ltac:(now apply (iparameters_ok f sep l)).
+    and_step ltac:(reflexivity).
+    and_step ltac:(apply (icomments_uid uid " " rest Hu); now right).
+    reflexivity.
+  - destruct (String.eqb_spec kw "prop") as [->|Hp]; [left; split; [reflexivity|]|right; now split].
+    unfold sigprop_line, tab. repeat rewrite sapp_assoc. cbn [append].
+    unfold iproperty. rewrite pand_fst.
+    and_step ltac:(reflexivity).
+    and_step ltac:(rewrite iident_ws; now apply iident_ok).
+    and_step ltac:(reflexivity).
+    and_step ltac:(now apply (iparameters_ok f sep l)).
+    and_step ltac:(reflexivity).
+    and_step ltac:(apply (icomments_uid uid " " rest Hu); now right).
+    reflexivity.
+Qed.
+
+Corollary signal_line_parses : forall f name sep l uid rest,
+  is_iident name = true -> (uid < 2 ^ 32)%N -> is_sep sep -> Forall (param_ok f) l ->
+  fst (isignal (itype f) (sigprop_line "sig" name (join sep (map param_str l)) uid ++ rest)) =
+  Ok (NVal (VSignal name uid (iparams l))) (nl ++ rest).
+Proof.
+  intros f name sep l uid rest H1 H2 H3 H4.
+  destruct (sigprop_line_parses f "sig" name sep l uid rest H1 H2 H3 H4) as [[_ H]|[[E _]|[E _]]];
+    [exact H|discriminate|congruence].
+Qed.
+
+Corollary property_line_parses : forall f name sep l uid rest,
+  is_iident name = true -> (uid < 2 ^ 32)%N -> is_sep sep -> Forall (param_ok f) l ->
+  fst (iproperty (itype f) (sigprop_line "prop" name (join sep (map param_str l)) uid ++ rest)) =
+  Ok (NVal (VProp name uid (iparams l))) (nl ++ rest).
+Proof.
+  intros f name sep l uid rest H1 H2 H3 H4.
+  destruct (sigprop_line_parses f "prop" name sep l uid rest H1 H2 H3 H4) as [[E _]|[[_ H]|[_ E]]];
+    [discriminate|exact H|congruence].
+Qed.
+
+(* ---------- generated member names P0, P1, ... are identifiers ---------- *)
+Lemma nat_digits_alnum fuel : forall n acc, all_chars is_alnum_ acc = true -> all_chars is_alnum_ (nat_digits fuel n acc) = true.
+Proof.
+  induction fuel as [|fuel IH]; intros n acc Ha; [exact Ha|]. cbn [nat_digits].
+  assert (Hd : is_alnum_ (ascii_of_nat (48 + n mod 10)) = true).
+  { pose proof (Nat.mod_upper_bound n 10 ltac:(lia)) as Hm.
+    remember (n mod 10) as d. clear Heqd.
+    do 10 (destruct d as [|d]; [reflexivity|]). lia. }
+  destruct (Nat.ltb n 10); [cbn [all_chars]; now rewrite Hd, Ha|]. apply IH. cbn [all_chars]. now rewrite Hd, Ha.
+Qed.
+
+Lemma tuple_field_names_ok {A} i (l : list A) : Forall (fun p => is_iident (fst p) = true) (tuple_fields i l).
+Proof.
+  revert i; induction l as [|x l IH]; intro i; cbn [tuple_fields]; constructor; [|apply IH].
+  cbn [fst]. change ("P" ++ nat_to_string i) with (String "P" (nat_to_string i)).
+  unfold is_iident. change (is_alpha_ "P") with true. cbn [andb].
+  unfold nat_to_string. now apply nat_digits_alnum.
+Qed.
+
+(* ---------- the line of a method: generation, parsing and resolution together ---------- *)
+Lemma tuple_sig_of sc g l : Forall (fun p => idl_safe (snd p) = true /\ scope_has sc (snd p) /\ ty_depth (snd p) < g) l ->
+  tuple_sig g sc (iparams l) = Some (print (TTuple (map snd l))).
+Proof.
+  intro HF. unfold tuple_sig. rewrite isig_S. cbn zeta. cbn iota.
+  match goal with |- match ?F ?x with _ => _ end = _ =>
+    assert (E : F x = Some (String.concat "" (map print (map snd l)))) end.
+  { induction HF as [|p l (Hs & Hsc & Hd) HF IH]; [reflexivity|].
+    cbn [iparams map fst snd]. rewrite (isig_of sc (snd p) Hs Hsc g Hd).
+    unfold iparams in IH. rewrite IH. now rewrite sconcat_cons. }
+  rewrite E. reflexivity.
+Qed.
+
+Lemma fields_param_ok f ts : forall i, Forall (fun t => idl_safe t = true /\ idl_depth t < f) ts ->
+  Forall (param_ok f) (tuple_fields i ts).
+Proof.
+  induction ts as [|t ts IH]; intros i HF; cbn [tuple_fields]; constructor.
+  - inversion HF as [|? ? [Hs Hd] HF']; subst. repeat split; [|assumption|assumption].
+    pose proof (tuple_field_names_ok i (t :: ts)) as Hn. cbn [tuple_fields] in Hn. now inversion Hn.
+  - inversion HF; subst. now apply IH.
+Qed.
+
+Lemma fields_sig_ok sc g ts : forall i, Forall (fun t => idl_safe t = true /\ scope_has sc t /\ ty_depth t < g) ts ->
+  Forall (fun p => idl_safe (snd p) = true /\ scope_has sc (snd p) /\ ty_depth (snd p) < g) (tuple_fields i ts).
+Proof.
+  induction ts as [|t ts IH]; intros i HF; cbn [tuple_fields]; constructor.
+  - now inversion HF.
+  - inversion HF; subst. now apply IH.
+Qed.
+
+(* a method whose parameter names are not given (MetaMethod.Parameters nil): P0, P1, ... *)
+Theorem method_roundtrip : forall m ts rt s sc f g rest,
+  mm_params m = print (TTuple ts) -> mm_ret m = print rt -> mm_pnames m = None ->
+  wf_ty (TTuple ts) = true -> wf_ty rt = true ->
+  is_iident (mm_name m) = true -> (mm_uid m < 2 ^ 32)%N ->
+  Forall (fun t => idl_safe t = true /\ idl_depth t < f /\ scope_has sc t /\ ty_depth t < g) ts ->
+  (rt = TS SVoid \/ (idl_safe rt = true /\ idl_depth rt < f /\ scope_has sc rt /\ ty_depth rt < g)) -> 0 < g ->
+  exists line s' ri pl,
+    gen_method m s = Some (line, s') /\
+    fst (imethod (itype f) (line ++ rest)) = Ok (NVal (VMethod (mm_name m) (mm_uid m) ri pl)) (nl ++ rest) /\
+    isig g sc ri = Some (mm_ret m) /\ tuple_sig g sc pl = Some (mm_params m).
+Proof.
+  intros m ts rt s sc f g rest Hp Hr Hn Hwp Hwr Hname Hu Hts Hrt Hg.
+  set (l := tuple_fields 0 ts).
+  exists (method_line (mm_name m) (join ", " (map param_str l)) (ret_str rt) (mm_uid m)).
+  destruct (register (TTuple ts) s) as [pt' s1] eqn:E1. destruct (register rt s1) as [rt' s2] eqn:E2.
+  exists s2, (ret_ity rt), (iparams l). repeat split.
+  - unfold gen_method. rewrite Hp, Hr, (parse_print _ Hwp), (parse_print _ Hwr), Hn, E1, E2. reflexivity.
+  - apply method_line_parses; [assumption|assumption|right; reflexivity| |].
+    + subst l. apply fields_param_ok. eapply Forall_impl; [|exact Hts]. cbn. tauto.
+    + destruct Hrt as [->|(Ha & Hb & _)]; [now left|right; now split].
+  - unfold ret_ity. destruct (String.eqb_spec (print rt) "v") as [Ev|Ev].
+    + apply print_v in Ev. subst rt. rewrite Hr. destruct g; [lia|reflexivity].
+    + destruct Hrt as [->|(Ha & _ & Hc & Hd)]; [now elim Ev|]. rewrite Hr. now apply isig_of.
+  - rewrite Hp. pose proof (tuple_sig_of sc g l) as H. unfold l in H. rewrite tuple_fields_snd in H. apply H.
+    subst l. apply fields_sig_ok. eapply Forall_impl; [|exact Hts]. cbn. tauto.
+Qed.
